@@ -698,12 +698,13 @@ open QV.A2A in
 constant-folding passes and the multi-target pass have nothing to do -/
 theorem ast2ast_of_rw (aargs : Args) (body L : List SStmt) (st : RSt)
     (hres : rejectReserved (aargs.map (·.1)) body = .ok ()) (hf1 : foldSs body = .ok body)
+    (hargs : replaceArgs aargs = .ok aargs)
     (hmt : mtSs body = .ok body) (hrw : (rwSs [] body).run (initSt aargs) = .ok (L, st))
     (hf2 : foldSs L = .ok L) : ∃ log, ast2ast aargs body = .ok (L, log) := by
   have : ast2ast aargs body = .ok (L, st.log ++ (if body != body then ["fold-pre"] else [])
       ++ (if body != body then ["multitarget"] else []) ++ (if L != L then ["fold-post"] else [])) := by
     unfold ast2ast
-    simp only [hres, hf1, hmt, hrw, hf2, bind, Except.bind, pure, Except.pure]
+    simp only [hres, hf1, hargs, hmt, hrw, hf2, bind, Except.bind, pure, Except.pure]
   exact ⟨_, this⟩
 
 open QV.A2A in
@@ -727,7 +728,7 @@ theorem C01_if (p : SProg) (hp : okProg p = true) (L : List SStmt) (st : RSt)
         Sem.Agree xv sv ∧
         ∀ (i : Nat) (b : Bool), xv.claim[i]? = some (some b) →
           ∀ name, (p.ret.names "_ret")[i]? = some name → runDefs defs ρ name = b := by
-  refine ⟨ast2ast_of_rw _ _ L st hres hf1 hmt hrw hf2, ?_⟩
+  refine ⟨ast2ast_of_rw _ _ L st hres hf1 (replaceArgs_aargsOf p) hmt hrw hf2, ?_⟩
   obtain ⟨sv, hs, hbits, hx⟩ := C01_guarded ⟨p.args, p.ret, L.map toStmt⟩ consts hg defs events htr ρ
   exact ⟨sv, ast2ast_if_preserved p hp L st hrw ρ sv hs, hbits, hx⟩
 
